@@ -20,10 +20,11 @@ open SaphyrVerif.Lemmas.C11 (Boundary atDocStart atDocEnd Doc docsItems)
 open SaphyrVerif.Lemmas.C11T (RunP J skipNeutral skipLoop_neutral itemsOf_neutral DocOk peek_congr)
 open SaphyrVerif.Lemmas.Frame (Ctx FSim RF pos dep)
 
-/-- the enforcer (if any) accepts the `DocumentEnd` marker of the document — the last event charged to it —, and
-its final ratio check is silent -/
+/-- the enforcer (if any) accepts the `DocumentEnd` marker of the document — the last event charged to it: the event
+count is still within `max_events`, and the alias/anchor ratio check that the per-document policy makes at the
+`DocumentEnd` (`BudgetEnforcer::ratio_breach`) is silent -/
 def TrailOk (b : Option Enf) : Prop :=
-  ∀ E, b = some E → E.report.events + 1 ≤ E.lim.maxEvents ∧ E.finalize.2 = none
+  ∀ E, b = some E → E.report.events + 1 ≤ E.lim.maxEvents ∧ E.ratioBreach = none
 
 /-- `finish()` has nothing to report -/
 def FinOk (p : Pump) : Prop := (Pump.finish p).1 = none
@@ -117,9 +118,12 @@ def AtEndB (L : AliasLimits) (ob : Option Limits) (R : List RawItem) (p : Pump) 
 /-- one more marker event counted -/
 def bumpEvents (E : Enf) : Enf := { E with report := { E.report with events := E.report.events + 1 } }
 
-theorem observe_docEnd (E : Enf) (he : E.report.events + 1 ≤ E.lim.maxEvents) : E.observe .docEnd = .ok (bumpEvents E) := by
+theorem observe_docEnd (E : Enf) (he : E.report.events + 1 ≤ E.lim.maxEvents) (hr : E.ratioBreach = none) :
+    E.observe .docEnd = .ok (bumpEvents E) := by
   have : ¬ (E.report.events + 1 > E.lim.maxEvents) := by omega
-  cases hp : E.perDocument <;> simp [Enf.observe, Enf.perDocPrologue, Enf.observeCounted, hp, this, bumpEvents]
+  rw [Lemmas.C07.observe_plain E rfl rfl]
+  simp only [Enf.observeCounted, Lemmas.C07.ratioBreach_events, hr, if_neg this]
+  cases hp : E.perDocument <;> simp [bumpEvents, hp]
 
 /-- stream framing is not charged under the per-document policy -/
 theorem observe_frame_stat {lim : Limits} {E : Enf} (h : EnfStat lim E) {ev : Raw}
@@ -128,9 +132,9 @@ theorem observe_frame_stat {lim : Limits} {E : Enf} (h : EnfStat lim E) {ev : Ra
 
 theorem bumpEvents_stat {lim : Limits} {E : Enf} (h : EnfStat lim E) : EnfStat lim (bumpEvents E) := h
 
-theorem bumpEvents_finalize (E : Enf) : (bumpEvents E).finalize.2 = E.finalize.2 := by
-  rw [Lemmas.C07.finalize_snd, Lemmas.C07.finalize_snd, Lemmas.C07.finalize_fst, Lemmas.C07.finalize_fst]
-  rfl
+/-- per-document policy: `finalize` is silent (the ratio was judged at the `DocumentEnd`) -/
+theorem bumpEvents_finalize {lim : Limits} {E : Enf} (h : EnfStat lim E) : (bumpEvents E).finalize.2 = none :=
+  Lemmas.C07.finalize_snd_pd _ h.2.1
 
 /-- the pump after the `DocumentEnd` marker -/
 def endB (p : Pump) (le : Loc) : Pump :=
@@ -152,7 +156,7 @@ theorem step_docEndB {L : AliasLimits} {ob : Option Limits} {R : List RawItem} {
       simp only [parserLoop, clr, hq]
       simp [Pump.resetDocumentState, hsade, endB, clr, hq]
     | some E =>
-      have ho := observe_docEnd E (by have := (htr E hq).1; omega)
+      have ho := observe_docEnd E (by have := (htr E hq).1; omega) (htr E hq).2
       simp only [parserLoop, clr, hq, ho, Except.map]
       simp [Pump.resetDocumentState, hsade, endB, clr, hq]
   · refine ⟨?_, hst.rip, rfl, rfl, rfl, rfl, rfl, hst.lim, hsade⟩
@@ -166,8 +170,10 @@ theorem step_docEndB {L : AliasLimits} {ob : Option Limits} {R : List RawItem} {
     cases hq : p.budget with
     | none => simp [hbud, hq]
     | some E0 =>
-      have h2 := bumpEvents_finalize E0
-      rw [(htr E0 hq).2] at h2
+      have h2 : (bumpEvents E0).finalize.2 = none := by
+        cases ob with
+        | none => rw [hq] at hb; exact hb.elim
+        | some lim0 => rw [hq] at hb; exact bumpEvents_finalize hb
       simp only [hbud, hq, Option.map_some, h2, Option.map_none]
 
 /-! ### recovery from inside a document -/
